@@ -46,7 +46,7 @@ from props import C01 as base
 
 ID = 'C10'
 LEVEL = 'other'
-P_TARGETS = ['cgsmiles.resolve:compatible']
+P_TARGETS = ['cgsmiles.resolve:compatible', 'cgsmiles.resolve:MoleculeResolver.squash_atoms']
 BUDGET = {'quick': 33.0, 'thorough': 420.0}
 CHUNK = 50
 BOUNDS = {
